@@ -68,7 +68,8 @@ func (l Logistic) NumParameters() int {
 
 // Prob computes the value of the probability density function at x.
 func (l Logistic) Prob(x float64) float64 {
-	E := math.Exp(-(x - l.Mu) / l.S)
+	// The density is symmetric about Mu; using -|z| keeps exp from overflowing.
+	E := math.Exp(-math.Abs((x - l.Mu) / l.S))
 	return E / (l.S * math.Pow(1+E, 2))
 }
 
